@@ -76,17 +76,18 @@ CHECKS["C02"] = {
              "non-trivial: history with >=1 swap charging a fee > 0, or >=1 settled melt, or >=1 adversarial request that reached validation; distinct = hash of the operation trace. "
              "Also: mint / swap requests that meet a storage error at their k-th storage call followed by restore of their outputs and a retry (what restore hands out is booked as issued), restore probes after refused requests, mint requests on internally settled quotes. "
              "Schedule units (shared race harness): 2..3 concurrent swaps / melts / state checks / quote polls / mint requests sharing inputs or outputs, optionally after a melt left pending, under random (rapid) and enumerated (pre-emption bound 2 quick / 4 thorough) schedules at storage/LN-call granularity; oracle = the same inequality over ground truth once all requests have returned; non-trivial = >=1 context switch inside a request. "
-             "Unit backend: the repository's Core Lightning adapter against an imitation of the node's REST interface that records invoice amounts as exact integers; mint quote amounts from small to 2^64-1 with emphasis on k*floor(2^64/1000), 2^53, 2^62, 2^63 +- 2000; oracle: an accepted quote means the node was asked for exactly 1000*amount msat and a PAID quote is not worth more than its invoice collected."),
+             "Unit backend: the repository's Core Lightning adapter against an imitation of the node's REST interface that records invoice amounts as exact integers; mint quote amounts from small to 2^64-1 with emphasis on k*floor(2^64/1000), 2^53, 2^62, 2^63 +- 2000; oracle: an accepted quote means the node was asked for exactly 1000*amount msat and a PAID quote is not worth more than its invoice collected. Unit backend_lnd: the same for the LND adapter (amounts also around k*2^64/1000 for k up to 999): the invoice the node wrote for an accepted quote is for exactly 1000*amount msat."),
     "level_text": ("Random and adversarial operation histories are executed against the real mint (real SQLite, real signing) and an independent millisatoshi ledger fed only by responses and by the Lightning model's ground truth; the inequality and its four local forms are checked after every step and failures shrink to a minimal history. "
                    "Exploration is the right level for a property over all histories and configurations: it samples thousands of histories per run but cannot exclude a violation confined to a history shape the generator does not produce."),
     "level_note": "Trusted: the Lightning model (harness/lnmodel) as a faithful rendering of the lightning.Client contract with an adversarial fee policy; the client helper's unblinding; SQLite. Histories are sequential; the schedule units cover 2..3 concurrent requests at storage/LN-call granularity.",
     "assumptions": ["Lightning backend modelled by harness/lnmodel (charges the full fee limit; answers scripted)", "interleaving granularity of the schedule units = one storage or Lightning call",
-                    "unit backend: the Core Lightning node is an in-process imitation of its REST interface (invoice / listinvoices); the LND adapter needs a gRPC node and is not exercised"],
+                    "unit backend: the Core Lightning node is an in-process imitation of its REST interface (invoice / listinvoices); unit backend_lnd: the LND adapter runs on imitations of lnd's rpc clients whose AddInvoice converts sat to msat with lnd's own lnrpc.UnmarshallAmt and refuses more than 10 BTC"],
     "units": [
         plain("regress", "^TestRegress"),
         rapid("ledger", "^TestLedger$", 480, 8000, qs=8, ts=16),
         rapid("sched", "^TestSchedLedger$", 300, 4000, qs=6, ts=16),
         rapid("backend", "^TestBackendAmounts$", 200, 10000, qs=4, ts=16),
+        rapid("backend_lnd", "^TestBackendAmountsLND$", 200, 10000, qs=4, ts=16),
         plain("schedenum", "^TestSchedLedgerEnum$", qs=16, ts=16, ttimeout=3300),
     ],
 }
